@@ -93,9 +93,54 @@ func canonicalShape(ops []Op) bool {
 	return true
 }
 
+
+// noModelOp: calls that are no-ops for the models (they neither change nor observe the modelled state): the models
+// run on the history without them
+func noModelOp(k string) bool { return k == "cjson" || k == "setnil" }
+
+func filterNoModel(ops []Op, obs []string, digests []string) ([]Op, []string, []string, []int) {
+	any := false
+	for _, o := range ops {
+		if noModelOp(o.K) {
+			any = true
+		}
+	}
+	if !any {
+		return ops, obs, digests, nil
+	}
+	var fo []Op
+	var fb, fd []string
+	var idx []int
+	for i, o := range ops {
+		if noModelOp(o.K) {
+			continue
+		}
+		fo = append(fo, o)
+		idx = append(idx, i)
+		if i < len(obs) {
+			fb = append(fb, obs[i])
+		}
+		if i < len(digests) {
+			fd = append(fd, digests[i])
+		}
+	}
+	return fo, fb, fd, idx
+}
+
+func remapStep(m *Mismatch, idx []int) *Mismatch {
+	if m != nil && idx != nil && m.Step >= 0 && m.Step < len(idx) {
+		m.Step = idx[m.Step]
+	}
+	return m
+}
+
 // ModelMismatch compares the implementation's observations with the
 // model's on one history.  Returns nil when they agree.
 func ModelMismatch(fileBacked bool, ops []Op, obs []string) (*Mismatch, int) {
+	if fo, fb, _, idx := filterNoModel(ops, obs, nil); idx != nil {
+		m, n := ModelMismatch(fileBacked, fo, fb)
+		return remapStep(m, idx), n
+	}
 	multi := false
 	for _, o := range ops {
 		if o.K == "snap" || o.K == "close" || o.H != 0 {
@@ -221,6 +266,9 @@ var dmodelKinds = map[string]bool{"coll": true, "rmcoll": true, "names": true, "
 // DModelMismatch runs the byte-level store model DStore.drun on the history and compares, step by step, the
 // observations and (after Flush / FlushRevert / re-open) length and MD5 of the predicted file with the implementation's.
 func DModelMismatch(ops []Op, obs []string, digests []string) *Mismatch {
+	if fo, fb, fd, idx := filterNoModel(ops, obs, digests); idx != nil {
+		return remapStep(DModelMismatch(fo, fb, fd), idx)
+	}
 	total := 0
 	for _, o := range ops {
 		if o.H != 0 || !dmodelKinds[o.K] {
@@ -381,6 +429,15 @@ var dfaultCompared, dfaultFlushFails, readFaultsCompared int
 // recorded calls and compares every observation and, after every failed or completed Flush, FlushRevert and
 // re-open, length and MD5 of the predicted file with the implementation's.
 func DFModelMismatch(recs []frec) *Mismatch {
+	{
+		var keep []frec
+		for _, r := range recs {
+			if r.Fail || !noModelOp(r.Op.K) {
+				keep = append(keep, r)
+			}
+		}
+		recs = keep
+	}
 	total := 0
 	for _, r := range recs {
 		if r.Fail {
